@@ -364,13 +364,17 @@ def get_field_types(type_: type[DataclassInstance]) -> dict[Field, Any]:
     """
     ret: dict[Field, Any] = {}
 
-    for field in fields(type_):
-        f_type = field.type
-        if isinstance(f_type, str):
-            f_type = get_type_hints(type_).get(field.name)
+    # Always use the resolved hints, not the raw `field.type`: the raw annotation
+    # may be a string, may contain unresolved forward references nested inside
+    # a generic (e.g. `tuple["Node", ...]`, `Optional["Node"]`) or may be a plain
+    # `None` (which get_type_hints normalizes to NoneType)
+    type_hints = get_type_hints(type_)
 
-        if f_type is None:
+    for field in fields(type_):
+        if field.name not in type_hints:
             raise RuntimeError(f"Could not determine type of field {field.name} for type {type_}")
+
+        f_type = type_hints[field.name]
 
         # Unwrap newtypes to not deal with them later
         if is_new_type(f_type):  # type: ignore[arg-type]
